@@ -75,7 +75,7 @@ def run_tree(rec, tier, seed, ti, spec):
             return
         rec.count("trees-staged")
         if t.generator_reused:
-            rec.count("trees-generated-by-an-instance-that-read-an-earlier-revision")
+            rec.count("trees-generated-after-a-failed-run-on-a-broken-revision" if t.prior_failed else "trees-generated-by-an-instance-that-read-an-earlier-revision")
         it, br = t.interp, t.bridge
         classes = spec.classes()
         fam = it.types["PacketFamily"][0]
